@@ -117,7 +117,7 @@ CHECKS = {
     "C05": {
         "explanation": "bounded symbolic execution of the real commit log with a crash after a symbolic k-th file-system effect (memFS effect counter), followed by the real recovery (New) and a full read-back",
         "assumptions": ["process-crash model: an effect that returned is durable, effects apply in program order, a single write/mmap store/rename is atomic",
-                        "memFS models the file system; torn writes are outside; a second crash during recovery is explored for the append workload only (VerifC05CrashInRecovery)"],
+                        "memFS models the file system; torn writes are outside; a second crash during recovery is explored for every workload (VerifC05CrashInRecovery, Verif*CrashTwice); a third crash is outside"],
         "groups": [
             {"pkg": "./server/commitlog", "overlay": "commitlog", "pkgname": "commitlog",
              "harnesses": [
@@ -125,6 +125,12 @@ CHECKS = {
                   "covers": ["crashed", "recovered"], "targets": ["segment).setupIndex", "commitLog).open", "index).InitializePosition"]},
                  {"name": "VerifC05CrashInRecovery", "quick": {"msgs": 2}, "thorough": {"msgs": 3}, "replay": "interpreted", "max-paths": 2000000,
                   "covers": ["crashed", "crashed-in-recovery", "recovered"], "targets": ["commitLog).open", "segment).setupIndex", "segment).rebuildIndex"]},
+                 {"name": "VerifC05TruncateCrashTwice", "quick": {"msgs": 2}, "thorough": {"msgs": 3}, "replay": "interpreted", "max-paths": 2000000,
+                  "covers": ["crashed", "crashed-in-recovery", "recovered"], "targets": ["commitLog).Truncate", "commitLog).open", "segment).setupIndex"]},
+                 {"name": "VerifC05RetentionCrashTwice", "quick": {"msgs": 3}, "thorough": {"msgs": 4}, "replay": "interpreted", "max-paths": 2000000,
+                  "covers": ["crashed", "crashed-in-recovery", "recovered"], "targets": ["deleteCleaner).deleteSegments", "commitLog).open"]},
+                 {"name": "VerifC05CompactCrashTwice", "quick": {"msgs": 3}, "thorough": {"msgs": 4}, "replay": "interpreted", "max-paths": 2000000,
+                  "covers": ["crashed", "crashed-in-recovery", "recovered"], "targets": ["compactCleaner).cleanSegment", "commitLog).open"]},
                  {"name": "VerifC05Truncate", "quick": {"msgs": 3}, "thorough": {"msgs": 4}, "replay": "native-derived",
                   "covers": ["crashed", "recovered"], "targets": ["commitLog).Truncate", "segment).Replace"]},
                  {"name": "VerifC05Retention", "quick": {"msgs": 3}, "thorough": {"msgs": 4}, "replay": "native-derived",
